@@ -43,9 +43,9 @@ CLAIMED = {
         note="Trusted: Kani/Verus; oracle rules written from the property; uninterpreted IR reads and member join (constrain_join); T instantiated at ItemId; DerivableTraits modelled as one bool per flag. Unverified: constrain_join/Trace (which members are joined), the large-alignment override and insert in CannotDerive::constrain, hand-written impl bodies (impl_debug.rs, impl_partialeq.rs, Default via write_bytes).",
         ref="DESIGN.md §3 C08"),
     "C09": dict(
-        technique="Verus contracts on extracted traversal::codegen_edges / only_inner_type_edges / all_edges",
-        text="Deductive proof of the per-edge decision of the allowlist traversal: every edge whose target is a type is followed iff types are generated (vars, methods, constructors, destructors likewise), no-recursive mode follows exactly inner-type edges. Closure/minimality over real graphs are not decided.",
-        note="Narrow. Trusted: Verus/Z3; uninterpreted CodegenConfig reads; type-edge table from the Trace impls. Unverified: root selection, ItemTraversal, Trace impls, regex anchoring, textual identity.",
+        technique="Verus contracts on extracted traversal::codegen_edges / only_inner_type_edges / all_edges, the root-selection closure, Item::is_blocklisted, and the graph walk ItemTraversal::{new, visit_kind, next} with a representation invariant and closure/minimality lemmas",
+        text="Deductive proof of the per-edge decision of the allowlist traversal: every edge whose target is a type is followed iff types are generated (vars, methods, constructors, destructors likewise), no-recursive mode follows exactly inner-type edges; which items are roots; and, for every graph, predicate, root list and queue discipline, that draining an ItemTraversal yields exactly the items reachable from the roots along followed edges (closure and minimality; termination not proved).",
+        note="Trusted: Verus/Z3; uninterpreted CodegenConfig reads; type-edge table from the Trace impls; storage = set and queue = bag trait contracts; Trace impls call visit_kind once per outgoing edge. Unverified: the Trace impls themselves (completeness of the reported references), regex anchoring/matching, the unnamed-enum variant path loop, textual identity with the un-allowlisted run.",
         ref="DESIGN.md §3 C09"),
     "C10": dict(
         technique="Verus contracts on extracted Item::is_blocklisted, CannotDerive::constrain_type (blocklisted rule first), helpers::blob / Layout::known_type_for_size / for_size_internal",
